@@ -138,7 +138,7 @@ class Excel:
         value = str(value)
         suspicious_constructions = re.findall(r'[a-zA-Z_\d]+\(.*?\)', value)
         if suspicious_constructions:
-            return [i for i in suspicious_constructions if not re.findall(r'[A-Z]+\(.*?\)', i)]
+            return [i for i in suspicious_constructions if not re.match(r'[A-Z]+\(', i)]
 
         return []
 
